@@ -7,6 +7,7 @@ import (
 	"github.com/contiv/libOpenflow/util"
 
 	"vh/fw"
+	"vh/gen"
 	"vh/lib"
 	"vh/prng"
 )
@@ -88,7 +89,12 @@ func c13Eval(c *fw.Ctx, data any) {
 	type sizer interface {
 		Len() uint16
 	}
+	interfered := false
 	for _, h := range hs {
+		if !interfered && refBytes != nil && refLen >= 0 { // once a reference size and encoding exist
+			interfered = true
+			c13Interfere(c)
+		}
 		// a fresh value per history
 		var lenF func() int
 		var encF func() ([]byte, error)
@@ -231,4 +237,52 @@ func c13Children(c *fw.Ctx, v util.Message, depth int) {
 			c13Children(c, s.msg, depth+1)
 		}
 	}
+}
+
+// c13Interfere runs decoders on OTHER values between the first history of a case and the rest: every constructor in
+// the constructor table and every action kind gets a fresh constructor-made value, which decodes a scribbled copy
+// (every zero byte after the type/length words replaced by a case-specific non-zero byte, so padding and reserved bytes are non-zero) of
+// its own encoding. Values are independent: whatever these decodes write must not show up in the sizes and
+// encodings of the value under test (state shared between values through package-level buffers would).
+func c13Interfere(c *fw.Ctx) {
+	fillByte := byte(0x80 | (c.Index*7+1)&0x7f) // a different pattern in every case: shared state would change again
+	scribble := func(b []byte, keep int) []byte {
+		o := append([]byte(nil), b...)
+		for i := keep; i < len(o); i++ {
+			if o[i] == 0 || o[i] >= 0x80 { // zero bytes (padding, reserved) and whatever an earlier case left there
+				o[i] = fillByte
+			}
+		}
+		return o
+	}
+	n := 0
+	for _, e := range ctorTable {
+		fw.Recover(func() {
+			b, err := e.mk().MarshalBinary()
+			if err != nil || len(b) < 4 {
+				return
+			}
+			e.mk().UnmarshalBinary(scribble(b, 4))
+			n++
+		})
+	}
+	r := prng.Derive(c.Seed, 1301)
+	for _, k := range gen.ActionKinds() {
+		fw.Recover(func() {
+			a, err := lib.BuildAction(gen.ActionOfKind(r, k, gen.ActOpt{}))
+			if err != nil {
+				return
+			}
+			b, err := a.MarshalBinary()
+			if err != nil || len(b) < 8 {
+				return
+			}
+			a2, err := lib.BuildAction(gen.ActionOfKind(r, k, gen.ActOpt{}))
+			if err == nil {
+				a2.UnmarshalBinary(scribble(b, 4))
+				n++
+			}
+		})
+	}
+	c.Count("interfering_decodes", int64(n))
 }
